@@ -31,7 +31,10 @@ CHUNK = 40
 RULE = ("gen(seed): rig (raw peer as client of the real handler / as server of the real client), "
         "permessage-deflate on/off with window bits, max_message_size, a valid frame sequence "
         "(1-5 messages, fragment cuts, pings/pongs in gaps, one message exactly at the limit), "
-        "application pacing (sync / async on_message), segmentation pattern, recv_cap/defer tapes, and "
+        "application pacing (sync / async on_message, optionally echoing every message when it "
+        "resumes), peer disconnect right after its last byte (RST, or FIN then RST) so that buffered "
+        "frames are parsed from a stream a failed echo/pong write already closed, segmentation "
+        "pattern, recv_cap/defer tapes, and "
         "ONE violation kind out of: rsv2 / rsv3 / rsv1 without extension (on data and on control "
         "frames), rsv1 on a continuation (extension agreed), fragmented control, control > 125 "
         "bytes, continuation without start, data frame inside a fragmented message, invalid UTF-8 "
@@ -56,6 +59,10 @@ ASSUMPTIONS = [
     "fragments, control payloads small next to the size limit, no BFINAL blocks) so that an early "
     "abort is always due to the inserted violation",
     "mask-bit violations are not in the property statement and are not injected",
+    "when the peer itself resets/closes the connection after its last byte, bytes Tornado had not "
+    "yet read are legitimately lost: 'every earlier message delivered' is relaxed to 'a prefix is "
+    "delivered' in those runs only (never a wrong, duplicated or later message); a reset that "
+    "arrives before the HTTP upgrade completed leaves nothing to judge",
 ]
 
 _speedups.ensure()
@@ -141,7 +148,23 @@ def gen(rng, tier, index):
     knobs = {"mode": mode, "mask": rng.choice(["c", "python"]), "deflate": deflate, "limit": limit,
              "pattern": [rng.choice([0, 0, -1, 1, 2, 5]) for _ in range(rng.randint(0, 3))],
              "client_cb": rng.random() < 0.4, "key": rng.getrandbits(8),
-             "window": rng.choice([64, 1024, 65536, 65536])}
+             "window": rng.choice([64, 1024, 65536, 65536]),
+             "echo": rng.random() < 0.3, "end": None, "end_dt": 0}
+    # the peer disconnects (RST, or FIN + RST for whatever Tornado still sends) right after its
+    # last byte: with an application that is still busy, the frames - violation included - are
+    # parsed from the buffer of a stream that a failed echo / pong write has already closed
+    if rng.random() < 0.25:
+        knobs["end"] = rng.choice(["rst", "rst", "fin"])
+        knobs["end_dt"] = rng.choice([0, 1, 2, 5])
+        if rng.random() < 0.75:
+            seg = {"pat": [], "hdr": False}  # everything in one segment
+            tapes.pop("recv_cap", None)
+            knobs["pattern"] = [rng.choice([3, 7, 20]) for _ in range(rng.randint(1, 3))]
+            knobs["echo"] = rng.random() < 0.7
+            knobs["client_cb"] = False
+            for m in msgs:
+                if not m["ctl"] and rng.random() < 0.4:
+                    m["ctl"].append([0, 9, "hex:" + bytes([0x70]).hex()])
     return {"property": ID, "version": 1, "knobs": knobs, "msgs": msgs, "viol": viol,
             "seg": seg, "tapes": tapes}
 
@@ -192,6 +215,9 @@ def validate(scn):
         if v["kind"] == "rsv1_no_ext" and k.get("deflate") is not None:
             return False
         if not isinstance(k.get("window"), int) or k["window"] < 1:
+            return False
+        if k.get("end") not in (None, "rst", "fin") or not isinstance(k.get("end_dt", 0), int) \
+                or k.get("end_dt", 0) < 0:
             return False
         for m in scn["msgs"]:
             if m["t"] not in (1, 2):
@@ -384,9 +410,46 @@ def run(scn, full_log=False):
         def snapshot():
             state["inflight_at_violation"] = rec.in_flight
 
+        from tornado.websocket import WebSocketClosedError
+        pat = R.Pattern(knobs.get("pattern"))
+        echo = bool(knobs.get("echo"))
+
+        async def busy_then_echo(target, message, k):
+            """An application that does some asynchronous work, then replies."""
+            if k:
+                rec.in_flight += 1
+                rec.max_in_flight = max(rec.max_in_flight, rec.in_flight)
+                try:
+                    await R.pace(env, k)
+                finally:
+                    rec.in_flight -= 1
+            if echo:
+                try:
+                    await target.write_message(message, binary=isinstance(message, bytes))
+                    state["echo_ok"] = state.get("echo_ok", 0) + 1
+                except WebSocketClosedError:
+                    state["echo_failed"] = state.get("echo_failed", 0) + 1  # the usual idiom
+
+        def on_message_hook(handler, message):
+            k = pat.next()
+            if not k and not echo:
+                return None
+            return busy_then_echo(handler, message, k)
+
+        def end_connection(ws):
+            how = knobs.get("end")
+            if how and not ws.peer.closed:
+                # at least one tick after the last byte arrived (an RST is not queued behind data)
+                d = max(0, int((ws.peer.tx.last_arrival - loop.time()) / UNIT)) + 1 + knobs.get("end_dt", 0)
+                if how == "rst":
+                    ws.peer.reset(delay=d)
+                else:
+                    ws.peer.close(delay=d)
+                state["ended_by_peer"] = how
+
         async def main_raw_client():
             server, ls = R.start_ws_server(env, rec, compression=(deflate["opts"] if deflate else None),
-                                           pattern=knobs.get("pattern"), max_message_size=limit)
+                                           on_message_hook=on_message_hook, max_message_size=limit)
             peer, ssock = net.raw_connect(ls, window=knobs.get("window", 65536))
             ws = R.RawWS(env, peer, "client", scn.get("seg"))
             box["ws"] = ws
@@ -400,6 +463,7 @@ def run(scn, full_log=False):
             ws.make_receiver()
             ws.start_reader()
             send_all(ws)
+            end_connection(ws)
             state["phase"] = "wait_eof"
             await peer.wait_eof()
             state["phase"] = "wait_close_cb"
@@ -423,6 +487,7 @@ def run(scn, full_log=False):
                     ws.make_receiver()
                     ws.start_reader()
                     send_all(ws)
+                    end_connection(ws)
                 else:
                     ws.peer.close()
                 if not started.done():
@@ -449,7 +514,13 @@ def run(scn, full_log=False):
             await started
             if not knobs.get("client_cb"):
                 async def reader():
-                    await R.client_read_loop(env, rec, conn, knobs.get("pattern"))
+                    while True:
+                        msg = await conn.read_message()
+                        if msg is None:
+                            rec.got_close(conn.close_code, conn.close_reason)
+                            break
+                        rec.got_message(msg)
+                        await busy_then_echo(conn, msg, pat.next())
                     # a second close notification would show up here
                     m = await conn.read_message()
                     if m is None:
@@ -474,7 +545,9 @@ def run(scn, full_log=False):
         ws = box["ws"]
         if ws is not None:
             ws.pump()
-        if state["handshake"] is not True:
+        if state["handshake"] is not True and state.get("ended_by_peer"):
+            probe("reset_before_handshake_completed")  # no WebSocket connection: nothing to judge
+        elif state["handshake"] is not True:
             viol.append({"rule": "handshake.failed", "key": f"handshake.failed/{mode}",
                          "msg": f"handshake did not complete: {ws.why if ws else ''} "
                                 f"{state.get('connect_error', '')} status {status}"})
@@ -501,6 +574,9 @@ def run(scn, full_log=False):
                                        f"{len(extra[1])} bytes {extra[1][:24]!r} (violation {vk} "
                                        f"before frame {at} of {state.get('nframes')}, "
                                        f"{'inside' if state['inside'] else 'outside'} a fragmented message)")
+            elif len(got) < len(exp) and state.get("ended_by_peer"):
+                # the peer reset the connection itself: bytes Tornado had not read yet are gone
+                probe("prefix_only_after_peer_reset")
             elif len(got) < len(exp):
                 bad("before.lost", f"only {len(got)} of the {len(exp)} messages completed before the "
                                    f"violation were delivered (status {status}, phase {state['phase']})")
@@ -547,6 +623,12 @@ def run(scn, full_log=False):
             probe("valid_frames_follow_violation")
             if state["later_same_segment"]:
                 probe("later_frames_in_same_segment")
+        if state.get("ended_by_peer"):
+            probe("peer_" + state["ended_by_peer"] + "_after_last_byte")
+        if state.get("echo_failed"):
+            probe("echo_write_failed_on_dead_connection")
+        if state.get("echo_ok"):
+            probe("echo_written")
         if state["inflight_at_violation"]:
             probe("async_on_message_running_when_violation_arrives")
         if state["expected"]:
